@@ -12,7 +12,7 @@ namespace {
 typedef OPNMIDIplay::MIDIchannel MCh;
 typedef OPNMIDIplay::OpnChannel OCh;
 
-enum K { NOTEON, NOTEOFF, CC, PANIC, RESETSTATE, PATCH, BEND, GEN, ARP, ALLOC, RELOADBANK, NUMCHIPS, SWITCHEMU, CHIPTYPE, RESET, REMOVEBANK, TICKSEQ };
+enum K { NOTEON, NOTEOFF, CC, PANIC, RESETSTATE, PATCH, BEND, GEN, ARP, ALLOC, RELOADBANK, NUMCHIPS, SWITCHEMU, CHIPTYPE, RESET, REMOVEBANK, TICKSEQ, LOADSONG };
 struct Op { K k; int ch, a, b; double ms; std::string name; std::string kind; bool config; };
 
 static std::vector<uint8_t> g_bank;     // 1 melodic + 1 percussion bank
@@ -161,6 +161,8 @@ struct RtModel : mcx::Model {
             add(CHIPTYPE, 0, 1, 0, 0, "setChipType(1)", "setChipType", true);
             add(RESET, 0, 0, 0, 0, "reset()", "reset", true);
             add(REMOVEBANK, 0, 0, 0, 0, "removeBank(melodic0)", "removeBank", true);
+            // music files offered to a handle that is playing: a song the loader accepts, and one that the sequencer rejects half-way (last event truncated)
+            add(LOADSONG, 0, 0, 0, 0, "openData(song)", "songLoad", true); add(LOADSONG, 0, 1, 0, 0, "openData(truncated song: rejected)", "songLoadRejected", true);
         }
         if(with_seq) {
             add(TICKSEQ, 0, 0, 0, 11, "tickEvents(11ms)", "seqTick", true);
@@ -439,6 +441,7 @@ struct RtModel : mcx::Model {
         case CHIPTYPE: opn2_setChipType(d, o.a); break;
         case RESET: opn2_reset(d); break;
         case REMOVEBANK: { OPN2_BankId id = {0, 0, 0}; OPN2_Bank b; if(opn2_getBank(d, &id, 0, &b) == 0) opn2_removeBank(d, &b); break; }
+        case LOADSONG: { unsigned long n = (unsigned long)g_song.size() - (o.a ? 2 : 0); int rc = opn2_openData(d, g_song.data(), n); if(rc == 0) I.song_loaded = true; else if(!o.a) { v.fail(g_prop + "/harness", std::string("the valid song was rejected: ") + opn2_errorInfo(d)); return; } break; }
         case TICKSEQ: { uint64_t w0 = I.in.tap.nwrites; opn2_tickEvents(d, o.ms / 1000.0, 0.0001); if(I.in.tap.nwrites != w0) tags |= 1ull << T_SEQ_EVENT; break; }
         }
         // outcome tags
